@@ -5,7 +5,7 @@
 
 use std::{
     collections::{BinaryHeap, HashMap, HashSet},
-    hash::Hash,
+    hash::{BuildHasher, Hash},
     ops::Not,
     sync::{
         Arc,
@@ -245,6 +245,13 @@ pub struct Repr<
 
     cache: TinyLFU<K::Key, Arc<RwLock<Entry<C>>>>,
     single_flight: single_flight::SingleFlight<K::Key>,
+
+    /// Counts the staged operations per group of keys. A miss builds the set
+    /// from a staging snapshot and a scan of the store outside any lock; it
+    /// may install it only if no operation on its group of keys has been
+    /// staged since the snapshot was taken, otherwise that operation found no
+    /// cached set to update and would be missing from the installed one.
+    op_counts: Box<[AtomicU64]>,
 }
 
 impl<K: KeyOfSetColumn, C: ConcurrentSet<Element = K::Element> + 'static>
@@ -268,7 +275,18 @@ impl<K: KeyOfSetColumn, C: ConcurrentSet<Element = K::Element> + 'static>
             single_flight: single_flight::SingleFlight::new(
                 default_shard_amount(),
             ),
+            op_counts: (0..default_shard_amount())
+                .map(|_| AtomicU64::new(0))
+                .collect(),
         }
+    }
+
+    #[allow(clippy::cast_possible_truncation)]
+    fn op_count(&self, key: &K::Key) -> &AtomicU64 {
+        let hash = FxBuildHasher::default().hash_one(key) as usize;
+
+        // the length is a power of two
+        &self.op_counts[hash & (self.op_counts.len() - 1)]
     }
 
     pub(crate) fn flush_staging(
@@ -401,6 +419,10 @@ impl<
         Option<Spilled<C, Db::ScanMemberIterator<K>>>,
     ) {
         loop {
+            // must be read before the snapshot is taken: an operation staged
+            // before is in the snapshot, one staged later changes the count.
+            let op_count = self.repr.op_count(key).load(Ordering::SeqCst);
+
             let staging_snapshot = self.get_staging_snapshot(key);
             let mut spilled = None;
 
@@ -417,17 +439,28 @@ impl<
 
                     self.repr.cache.entry(key.clone(), |e| match e {
                         tiny_lfu::Entry::Vacant(vaccant_entry) => {
+                            // an operation staged in the meantime found
+                            // nothing to update here and is not in the
+                            // snapshot either: build the set again
+                            if self.repr.op_count(key).load(Ordering::SeqCst)
+                                != op_count
+                            {
+                                return None;
+                            }
+
                             vaccant_entry.insert(entry.clone());
+
+                            Some(entry)
                         }
                         tiny_lfu::Entry::Occupied(_) => {
                             // Do nothing as another thread inserted an explicit
                             // value
+                            Some(entry)
                         }
-                    });
-
-                    entry
+                    })
                 })
-                .await;
+                .await
+                .flatten();
 
             if let Some(entry) = entry {
                 return (entry, staging_snapshot, spilled);
@@ -559,6 +592,10 @@ impl<
                 VersionedOperation { op: op.clone(), epoch, seq },
             ));
         }
+
+        // the operation is staged: a set built from an older snapshot must not
+        // be installed any more (see `Repr::op_counts`)
+        self.repr.op_count(key).fetch_add(1, Ordering::SeqCst);
 
         // Step 2: Update Cache (Optimization)
         // We DO NOT load from DB if missing. We only update if present.
